@@ -62,6 +62,18 @@ func fidelityPass(tier string, seed uint64, cov map[string]any) (int, []string) 
 		for _, name := range w.Names() {
 			nd := w.Get(name)
 			p := filepath.Join(dir, name)
+			if nd.Mode&os.ModeSymlink != 0 {
+				if err := os.Symlink(nd.Target, p); err != nil {
+					return 2, []string{"INFRA: " + err.Error()}
+				}
+				continue
+			}
+			if nd.Mode&os.ModeDir != 0 {
+				if err := os.Mkdir(p, 0o755); err != nil {
+					return 2, []string{"INFRA: " + err.Error()}
+				}
+				continue
+			}
 			if err := os.WriteFile(p, nd.Data, 0o600); err != nil {
 				return 2, []string{"INFRA: " + err.Error()}
 			}
@@ -109,6 +121,18 @@ func fidelityPass(tier string, seed uint64, cov map[string]any) (int, []string) 
 			}
 			for _, name := range sn {
 				nd := w.Get(name)
+				if li, lerr := os.Lstat(filepath.Join(dir, name)); lerr != nil || li.Mode()&(os.ModeSymlink|os.ModeDir) != nd.Mode&(os.ModeSymlink|os.ModeDir) {
+					return diag(fmt.Sprintf("file type of %q differs (simulated %v)", name, nd.Mode))
+				}
+				if nd.Mode&os.ModeSymlink != 0 {
+					if t, _ := os.Readlink(filepath.Join(dir, name)); t != nd.Target {
+						return diag(fmt.Sprintf("link %q points to %q, simulated %q", name, t, nd.Target))
+					}
+					continue
+				}
+				if nd.Mode&os.ModeDir != 0 {
+					continue
+				}
 				b, err := os.ReadFile(filepath.Join(dir, name))
 				if err != nil {
 					return diag("cannot read real file " + name + ": " + err.Error())
@@ -139,10 +163,10 @@ func fidelityPass(tier string, seed uint64, cov map[string]any) (int, []string) 
 
 func fidelityEligible(c *GCase) bool {
 	for _, f := range c.Files {
-		if f.Kind == "symlink" || f.Kind == "dir" {
-			return false
-		}
 		m := os.FileMode(f.Mode)
+		if f.Kind == "symlink" || f.Kind == "dir" {
+			continue
+		}
 		if f.Name != "\x00stdin" && m&0o400 == 0 {
 			return false // root reads unreadable files
 		}
